@@ -606,3 +606,37 @@ package fpgo
 //@   invariant keys-of-both: forallv(x, has(SS(result), x) == (has(SS(streamSetSelf), x) || has(SS(input), x)))
 //@   invariant extended: forallv(x, _visited(x) && SUBTRACTS(x) ==> SS(result)[x] != nil && fresh(SS(result)[x]) && len(*SS(result)[x]) == ite(SS(streamSetSelf)[x] == nil, 0, len(*SS(streamSetSelf)[x])) + len(*SS(input)[x]) && forall(j, 0, len(*SS(input)[x]), (*SS(result)[x])[ite(SS(streamSetSelf)[x] == nil, 0, len(*SS(streamSetSelf)[x])) + j] == (*SS(input)[x])[j]) && (SS(streamSetSelf)[x] != nil ==> forall(j, 0, len(*SS(streamSetSelf)[x]), (*SS(result)[x])[j] == (*SS(streamSetSelf)[x])[j])))
 //@   invariant others-shared: forallv(x, has(SS(result), x) && !(_visited(x) && SUBTRACTS(x)) ==> SS(result)[x] == ite(has(SS(input), x), SS(input)[x], SS(streamSetSelf)[x]))
+
+// Intersection by key (empty or nil operand: an empty set)
+//@ func (MapSetDef).Intersection
+//@   prop C04,C05
+//@   opt dispatch=force
+//@   requires mapSetSelf != nil && (untyped(input) || isptr(input, MapSetDef) && asptr(input, MapSetDef) != nil)
+//@   ensures empty-operand: untyped(input) || len(MSR(input)) == 0 ==> isptr(r0, MapSetDef) && asptr(r0, MapSetDef) != nil && fresh(asptr(r0, MapSetDef)) && forallv(x, !has(MSR(r0), x))
+//@   ensures fresh-result: !untyped(input) && len(MSR(input)) > 0 ==> MS_FRESH(r0)
+//@   ensures keys-of-both: !untyped(input) && len(MSR(input)) > 0 ==> forallv(x, has(MSR(r0), x) == (has(*mapSetSelf, x) && has(MSR(input), x)))
+//@   ensures own-values: !untyped(input) && len(MSR(input)) > 0 ==> forallv(x, has(MSR(r0), x) ==> MSR(r0)[x] == (*mapSetSelf)[x])
+//@ func (SetForInterfaceDef).Intersection
+//@   prop C04,C05
+//@   requires setSelf != nil
+//@   ensures empty-operand: input == nil || len(*input) == 0 ==> r0 != nil && fresh(r0) && forallv(x, !has(*r0, x))
+//@   ensures fresh-result: input != nil && len(*input) > 0 ==> r0 != nil && fresh(r0) && *r0 != nil && fresh(*r0)
+//@   ensures keys-of-both: input != nil && len(*input) > 0 ==> forallv(x, has(*r0, x) == (has(*setSelf, x) && has(*input, x)))
+//@   ensures own-values: input != nil && len(*input) > 0 ==> forallv(x, has(*r0, x) ==> (*r0)[x] == (*setSelf)[x])
+
+// StreamSetDef.Intersection (non-empty operand): the keys of both; under a key the operand maps to a non-empty stream, a fresh
+// stream whose items all occur in the receiver's stream and in the operand's (nil counts as empty); under the other common keys
+// the receiver's stream object (shared).  Nothing that existed is written.
+//@ func (StreamSetDef).Intersection
+//@   prop C04,C05
+//@   requires streamSetSelf != nil
+//@   ensures empty-operand: input == nil || len(SS(input)) == 0 ==> r0 != nil && fresh(r0) && len(SS(r0)) == 0
+//@   ensures fresh-result: input != nil && len(SS(input)) > 0 ==> r0 != nil && fresh(r0) && SS(r0) != nil && fresh(SS(r0))
+//@   ensures keys-of-both: input != nil && len(SS(input)) > 0 ==> forallv(x, has(SS(r0), x) == (has(SS(streamSetSelf), x) && has(SS(input), x)))
+//@   ensures intersected: input != nil && len(SS(input)) > 0 ==> forallv(x, has(SS(r0), x) && SUBTRACTS(x) ==> SS(r0)[x] != nil && fresh(SS(r0)[x]) && (SS(streamSetSelf)[x] == nil ==> len(*SS(r0)[x]) == 0) && (SS(streamSetSelf)[x] != nil ==> forall(j, 0, len(*SS(r0)[x]), CONTAINS(*SS(streamSetSelf)[x], (*SS(r0)[x])[j]) && CONTAINS(*SS(input)[x], (*SS(r0)[x])[j]))))
+//@   ensures others-shared: input != nil && len(SS(input)) > 0 ==> forallv(x, has(SS(r0), x) && !SUBTRACTS(x) ==> SS(r0)[x] == SS(streamSetSelf)[x])
+//@ func (StreamSetDef).Intersection loop 0
+//@   invariant result: result != nil && fresh(result) && SS(result) != nil && fresh(SS(result)) && SS(result) == _m
+//@   invariant keys-of-both: forallv(x, has(SS(result), x) == (has(SS(streamSetSelf), x) && has(SS(input), x)))
+//@   invariant intersected: forallv(x, has(SS(result), x) && _visited(x) && SUBTRACTS(x) ==> SS(result)[x] != nil && fresh(SS(result)[x]) && (SS(streamSetSelf)[x] == nil ==> len(*SS(result)[x]) == 0) && (SS(streamSetSelf)[x] != nil ==> forall(j, 0, len(*SS(result)[x]), CONTAINS(*SS(streamSetSelf)[x], (*SS(result)[x])[j]) && CONTAINS(*SS(input)[x], (*SS(result)[x])[j]))))
+//@   invariant others-shared: forallv(x, has(SS(result), x) && !(_visited(x) && SUBTRACTS(x)) ==> SS(result)[x] == SS(streamSetSelf)[x])
